@@ -225,6 +225,10 @@ def gen_shape_case(rng):
     case = {"op": "shape", "s": s, "pts": pts, "exact": exact}
     if rng.random() < 0.3:
         case["via"] = rng.randrange(1 << 30)    # the object reaches these values through its setters, after being queried
+    elif rng.random() < 0.25:
+        # the object is the result of translate_rotate of an object that answered queries before (seed C06-15)
+        case["moved"] = rng.choice([[3.0, -2.0, 0.0], [0.5, 4.0, 0.0], [-10.0, 0.25, 0.3], [2.0, 1.0, -1.2]])
+        case["exact"] = False    # the motion is computed in floating point: decisions on the boundary itself are not judged
     return case
 
 
@@ -263,10 +267,12 @@ def pip_truth(ring, p):
     return G.pip(rq, pq), float(d2) < GUARD * GUARD
 
 
-def prim_contains_truth(s, p, exact):
+def prim_contains_truth(s, p, exact, rounded=False):
     inside, margin = G.prim_contains_exact(s, p)
     if margin >= GUARD:
         return inside, False
+    if rounded:                 # the object's values were computed in floating point (a moved shape): never exact
+        return inside, True
     if s["k"] == "circ":
         d2 = (F(p[0]) - F(s["c"][0])) ** 2 + (F(p[1]) - F(s["c"][1])) ** 2
         on = d2 == F(s["r"]) ** 2
@@ -614,7 +620,10 @@ def observe_net(case):
 def observe_shape(case):
     s = case["s"]
     trace = []
-    sh = G.make_shape(s) if case.get("via") is None else G.make_shape_via(s, case["via"], trace)
+    if case.get("moved") is not None:
+        sh = G.make_shape_moved(s, case["moved"])
+    else:
+        sh = G.make_shape(s) if case.get("via") is None else G.make_shape_via(s, case["via"], trace)
     ob = {"via_trace": trace, "contains": [guarded(lambda: bool(sh.contains_point(np.array(p, dtype=float)))) for p in case["pts"]],
           "members": []}
     for m, msh in zip(G.prims(s), sh.shapes if s["k"] == "group" else [sh]):
@@ -675,7 +684,7 @@ def judge_shape(case, ob):
                 out.append((f"{'Rectangle' if m['k'] == 'rect' else 'Polygon'}.shapely_object:vertices",
                             f"exported ring {got} is not the ring of {m}"))
     for i, (p, o) in enumerate(zip(case["pts"], ob["contains"])):
-        truths = [prim_contains_truth(m, p, exact) for m in G.prims(s)]
+        truths = [prim_contains_truth(m, p, exact, rounded=case.get("moved") is not None) for m in G.prims(s)]
         exp = any(t for t, _ in truths)
         # near: some member's decision is near and it matters for the union
         near = any(n for _, n in truths) and not any(t and not n for t, n in truths)
